@@ -222,7 +222,12 @@ func (fr *frame) visitInstr(instr ssa.Instruction) bool /*returned*/ {
 		m.sched.send(fr.g, ch, fr.get(instr.X))
 
 	case *ssa.Store:
-		m.noSpec("store")
+		if m.spec > 0 {
+			if !fr.specStore(instr) {
+				m.noSpec("store")
+			}
+			break
+		}
 		fr.store(mustDeref(instr.Addr.Type()), fr.get(instr.Addr), fr.get(instr.Val))
 
 	case *ssa.If:
@@ -728,20 +733,77 @@ func (m *Machine) noSpec(what string) {
 
 // ---------------------------------------------------------------- merging
 
+// A store executed inside a speculative arm: only scalar stores (a term over
+// a term of the same sort) through a concrete pointer, with no access
+// monitor active.  The store is carried out and logged; at the end of the
+// arm every logged cell is rolled back and its final value handed to
+// tryMerge, which writes ite(cond, then-value, else-value) when the merge
+// succeeds ("if c { a[i] = true }" becomes a[i] = ite(c, true, a[i])).
+type specStoreRec struct {
+	addr *value
+	old  value
+}
+
+func (fr *frame) specStore(instr *ssa.Store) bool {
+	m := fr.m
+	if m.specLog == nil || m.guardOn || m.isoOn {
+		return false
+	}
+	addr, _ := fr.get(instr.Addr).(*value)
+	nv, _ := fr.get(instr.Val).(*Term)
+	if addr == nil || nv == nil {
+		return false
+	}
+	old, _ := (*addr).(*Term)
+	if old == nil || old.kind != nv.kind || old.w != nv.w || nv.kind == KFP {
+		return false
+	}
+	m.logSpecStore(addr)
+	*addr = nv
+	return true
+}
+
+func (m *Machine) logSpecStore(addr *value) {
+	for _, r := range *m.specLog {
+		if r.addr == addr {
+			return
+		}
+	}
+	*m.specLog = append(*m.specLog, specStoreRec{addr, *addr})
+}
+
 // specArm executes the straight-line block b speculatively (no forks, no
-// stores, no panics, no visible operations; calls are allowed and run under
-// the same restrictions).  It returns how the arm ends: with a Jump (the
-// successor block) or a Return (its result).  ok=false: the arm cannot be
-// merged.
+// panics, no visible operations, scalar stores only -- see specStore; calls
+// are allowed and run under the same restrictions).  It returns how the arm
+// ends: with a Jump (the successor block) or a Return (its result), and the
+// final values of the cells it stored to (the cells themselves are rolled
+// back).  ok=false: the arm cannot be merged.
 func (fr *frame) specArm(b *ssa.BasicBlock) (next *ssa.BasicBlock, ret value, isRet bool, ok bool) {
+	next, ret, isRet, _, ok = fr.specArmStores(b)
+	return
+}
+
+func (fr *frame) specArmStores(b *ssa.BasicBlock) (next *ssa.BasicBlock, ret value, isRet bool, stores map[*value]value, ok bool) {
 	m := fr.m
 	if len(b.Preds) != 1 {
-		return nil, nil, false, false
+		return nil, nil, false, nil, false
 	}
 	saveInstr := m.nInstr
+	saveLog := m.specLog
+	var log []specStoreRec
+	m.specLog = &log
 	m.spec++
 	defer func() {
 		m.spec--
+		m.specLog = saveLog
+		// roll the cells back; remember what the arm left in them
+		if len(log) > 0 {
+			stores = map[*value]value{}
+			for i := len(log) - 1; i >= 0; i-- {
+				stores[log[i].addr] = *log[i].addr
+				*log[i].addr = log[i].old
+			}
+		}
 		if r := recover(); r != nil {
 			if _, isSpec := r.(specAbort); isSpec {
 				m.nInstr = saveInstr
@@ -756,31 +818,31 @@ func (fr *frame) specArm(b *ssa.BasicBlock) (next *ssa.BasicBlock, ret value, is
 		case *ssa.Phi:
 			fr.env[instr] = fr.get(instr.Edges[0])
 		case *ssa.Jump:
-			return b.Succs[0], nil, false, true
+			return b.Succs[0], nil, false, nil, true
 		case *ssa.Return:
 			switch len(instr.Results) {
 			case 0:
-				return nil, nil, true, true
+				return nil, nil, true, nil, true
 			case 1:
-				return nil, fr.get(instr.Results[0]), true, true
+				return nil, fr.get(instr.Results[0]), true, nil, true
 			default:
 				var res tuple
 				for _, r := range instr.Results {
 					res = append(res, fr.get(r))
 				}
-				return nil, res, true, true
+				return nil, res, true, nil, true
 			}
 		case *ssa.If, *ssa.RunDefers:
-			return nil, nil, false, false
+			return nil, nil, false, nil, false
 		default:
 			save := fr.block
 			if fr.visitInstr(instr) {
-				return nil, nil, false, false
+				return nil, nil, false, nil, false
 			}
 			fr.block = save
 		}
 	}
-	return nil, nil, false, false
+	return nil, nil, false, nil, false
 }
 
 // mergeVal joins two values under a condition, when possible.
@@ -846,21 +908,22 @@ func (fr *frame) tryMerge(cond *Term) bool {
 		return false
 	}
 	type arm struct {
-		from  *ssa.BasicBlock // predecessor of the join on this side
-		next  *ssa.BasicBlock
-		ret   value
-		isRet bool
+		from   *ssa.BasicBlock // predecessor of the join on this side
+		next   *ssa.BasicBlock
+		ret    value
+		isRet  bool
+		stores map[*value]value
 	}
 	run := func(b, other *ssa.BasicBlock) (arm, bool) {
 		// triangle: this side goes straight to the other successor
 		if len(b.Preds) != 1 {
 			return arm{from: cur, next: b}, b == other || true
 		}
-		next, ret, isRet, ok := fr.specArm(b)
+		next, ret, isRet, stores, ok := fr.specArmStores(b)
 		if !ok {
 			return arm{}, false
 		}
-		return arm{from: b, next: next, ret: ret, isRet: isRet}, true
+		return arm{from: b, next: next, ret: ret, isRet: isRet, stores: stores}, true
 	}
 	var at, af arm
 	var ok bool
@@ -888,11 +951,53 @@ func (fr *frame) tryMerge(cond *Term) bool {
 	if at.isRet != af.isRet {
 		return false
 	}
+	// the cells the arms stored to: ite(cond, then-value, else-value), the
+	// value of an arm that did not touch a cell being its current one
+	type cellMerge struct {
+		addr *value
+		v    value
+	}
+	var cells []cellMerge
+	if len(at.stores)+len(af.stores) > 0 {
+		seen := map[*value]bool{}
+		for _, mp := range []map[*value]value{at.stores, af.stores} {
+			for addr := range mp {
+				if seen[addr] {
+					continue
+				}
+				seen[addr] = true
+				vt, vf := *addr, *addr
+				if v, ok := at.stores[addr]; ok {
+					vt = v
+				}
+				if v, ok := af.stores[addr]; ok {
+					vf = v
+				}
+				v, ok := m.mergeVal(cond, vt, vf)
+				if !ok {
+					return false
+				}
+				cells = append(cells, cellMerge{addr, v})
+			}
+		}
+	}
+	commit := func() {
+		for _, c := range cells {
+			if m.spec > 0 && m.specLog != nil {
+				m.logSpecStore(c.addr) // nested inside an outer speculative arm
+			}
+			*c.addr = c.v
+		}
+	}
+	if len(cells) > 0 && m.spec > 0 && m.specLog == nil {
+		return false
+	}
 	if at.isRet {
 		v, ok := m.mergeVal(cond, at.ret, af.ret)
 		if !ok {
 			return false
 		}
+		commit()
 		fr.result = v
 		fr.block = nil
 		m.merges++
@@ -932,6 +1037,7 @@ func (fr *frame) tryMerge(cond *Term) bool {
 	for i, phi := range phis {
 		fr.env[phi] = vals[i]
 	}
+	commit()
 	fr.prevBlock, fr.block = at.from, J
 	fr.phisDone = true
 	m.merges++
